@@ -89,7 +89,7 @@ func (c *Ctx) rootsReaching(fn *ssa.Function) []string {
 
 // C17 - outgoing streams are whole packets; each publisher's messages stay in order.
 func checkC17(c *Ctx) {
-	c.R.NotCover = append(c.R.NotCover, "that Encode produces a well-formed packet (C03)", "order across the subscriber's ring under concurrent writers beyond mutual exclusion", "the ring arithmetic itself (C14)")
+	c.R.NotCover = append(c.R.NotCover, "that Encode produces a well-formed packet (C03)", "order across the subscriber's ring under concurrent writers beyond mutual exclusion", "byte equality of the ring's copies (C14)")
 	c.useRules(ruleL1, ruleP9, ruleP7)
 	c.R.Rule(ruleL7, "a named lock covers a named span on all paths: in the packet writer the per-connection write mutex is held at the ring reservation, at every encode into the ring / scratch buffer, and at the commit (or copying write), so that concurrent deliveries to one connection never interleave inside a packet.")
 	r := c.Roles()
@@ -98,6 +98,9 @@ func checkC17(c *Ctx) {
 	}
 	c.writerCriticalSpan()
 	c.ringSideOwnership()
+	// what the sender drains from the outgoing ring is what the writers committed: bounds and space accounting of the ring
+	c.ringMemorySafety()
+	c.ringSpaceAccounting()
 	// the in-flight queues hand QoS 2 publishes on in arrival order: index and unroll order of the ring
 	c.queueIndexRules()
 	c.growRules()
